@@ -5,25 +5,27 @@ import errno
 from .. import gram as gr
 from ..core import Result, digest
 from hio.core.udp import peermemoing
+from hio.core.uxd import peermemoing as uxdmemoing
+from .. import store
 from hio.core.memo import memoing
 
 PID = "C21"
 ENGINE = "gram"
 LEVEL = "fault_enumeration"
-RULE = ("Each case queues 1-5 memos to 1-2 destinations on a real sender (PeerMemoer on the fake datagram kernel, or a bare Memoer "
+RULE = ("Each case queues 1-5 memos to 1-2 destinations on a real sender (UDP PeerMemoer or unix-domain PeerMemoer on the fake datagram kernel, or a bare Memoer "
         "subclass whose send() is the transport), small gram sizes so that memos split into several grams. Every transport send is "
         "decided by the tape: accept all, accept a prefix of k bytes, accept nothing (returns 0), EAGAIN / ENOBUFS (would block), or "
         "an unreachable-destination errno (ECONNREFUSED, ECONNRESET, ENETRESET, ENETUNREACH, EHOSTUNREACH, ENETDOWN, EHOSTDOWN, "
-        "ETIMEDOUT). The sender is serviced (serviceAllTx / serviceTxGramsOnce, seeded mix) while faults are on, then with faults off "
+        "ETIMEDOUT; for the unix-domain peer ECONNREFUSED, ENOENT, and ENOMEM as a further would-block). The sender is serviced (serviceAllTx / serviceTxGramsOnce, seeded mix) while faults are on, then with faults off "
         "for a bounded number of rounds. Oracle, evaluated on the kernel's own log of accepted bytes: every accepted chunk is the next "
         "unsent bytes of the gram at the head of the queue for its destination; grams complete in queue order; a gram is abandoned "
         "only in a call that reported an unreachable errno; after the drain every queued gram was sent in full or abandoned that way; "
         "service never raises. Non-trivial: >= 1 would-block on a gram of which nothing had been sent yet, >= 1 partial accept, and "
         ">= 3 grams queued. Distinct: digest of grams + per-call decisions.")
-COMPONENTS = dict(real=["hio.core.memo.memoing.Memoer tx services (_serviceOnceTxGrams, serviceTxGrams...)", "hio.core.udp.udping.Peer.send", "hio.core.udp.peermemoing.PeerMemoer"],
+COMPONENTS = dict(real=["hio.core.memo.memoing.Memoer tx services (_serviceOnceTxGrams, serviceTxGrams...)", "hio.core.udp.udping.Peer.send", "hio.core.udp.peermemoing.PeerMemoer", "hio.core.uxd.uxding.Peer.send", "hio.core.uxd.peermemoing.PeerMemoer", "hio.base.filing.Filer (socket directory in /dev/shm scratch)"],
                   stub=["datagram kernel sendto (FakeDgram)"])
 ASSUMPTIONS = ["partial acceptance of a datagram is generated because the statement quantifies over it (UDP itself is all-or-nothing)"]
-PROBES = ["would_block_on_fresh_gram", "remainder_left_when_queue_empty", "unreachable_drop", "partial_accept", "two_destinations", "bare_memoer"]
+PROBES = ["would_block_on_fresh_gram", "remainder_left_when_queue_empty", "unreachable_drop", "partial_accept", "two_destinations", "bare_memoer", "uxd_peer"]
 BOUNDS = dict(quick=dict(memos=5, send_calls=400), thorough=dict(memos=8, send_calls=800))
 TIERS = dict(quick=dict(cases=6000, wall=40.0), thorough=dict(cases=400000, wall=420.0))
 SIM_TIME_UNIT = "send calls"
@@ -32,6 +34,9 @@ SIM_TIME_UNIT = "send calls"
 def run_case(tape, tier):
     res = Result()
     bare = tape.flag("bare", 1, 3)
+    uxd = (not bare) and tape.flag("uxd", 1, 3)     # unix-domain datagram PeerMemoer instead of the UDP one
+    unreachable = gr.UNREACHABLE_UXD if uxd else gr.UNREACHABLE
+    would_block = gr.WOULD_BLOCK_UXD if uxd else gr.WOULD_BLOCK
     ndst = 1 + tape.draw("ndst", 2)
     nmemo = 1 + tape.draw("nmemos", 5 if tier == "quick" else 8)
     rates = dict(partial=tape.pick("r_partial", [0, 2, 6]), zero=tape.pick("r_zero", [0, 2, 6]), block=tape.pick("r_block", [0, 2, 6]),
@@ -44,25 +49,25 @@ def run_case(tape, tier):
         n = len(data)
         if faults_on[0]:
             if rates["unreach"] and tape.flag("unreach", rates["unreach"], 16):
-                code = gr.UNREACHABLE[tape.draw("unreach_errno", len(gr.UNREACHABLE))]
-                calls.append((tuple(dst), data, "unreachable", 0))
+                code = unreachable[tape.draw("unreach_errno", len(unreachable))]
+                calls.append((gr.key(dst), data, "unreachable", 0))
                 res.faults["errno_" + errno.errorcode[code]] += 1
                 raise OSError(code, "unreachable")
             if rates["block"] and tape.flag("block", rates["block"], 16):
-                code = [errno.EAGAIN, errno.ENOBUFS][tape.draw("block_errno", 2)]
-                calls.append((tuple(dst), data, "block", 0))
+                code = would_block[tape.draw("block_errno", len(would_block))]
+                calls.append((gr.key(dst), data, "block", 0))
                 res.faults["would_block_" + errno.errorcode[code]] += 1
                 raise OSError(code, "would block")
             if rates["zero"] and tape.flag("zero", rates["zero"], 16):
-                calls.append((tuple(dst), data, "zero", 0))
+                calls.append((gr.key(dst), data, "zero", 0))
                 res.faults["accept_zero"] += 1
                 return 0
             if rates["partial"] and n > 1 and tape.flag("partial", rates["partial"], 16):
                 k = 1 + tape.draw("partial_k", n - 1)
-                calls.append((tuple(dst), data, "partial", k))
+                calls.append((gr.key(dst), data, "partial", k))
                 res.faults["accept_partial"] += 1
                 return k
-        calls.append((tuple(dst), data, "all", n))
+        calls.append((gr.key(dst), data, "all", n))
         return n
     net.send_policy = policy
     raised = []
@@ -76,7 +81,8 @@ def run_case(tape, tier):
         size = oz + tape.pick("size_extra", [4, 10, 30])
         if curt:   # stay clear of recorded finding F34 (binary headers + gram size below the base64 non-zeroth overhead)
             size = max(size, sum(memoing.Memoer.Sizes[memoing.Memoer.Pairs[code]]) + 2)
-        dsts = [("127.0.0.1", 55101 + i) for i in range(ndst)]
+        dsts = ["/sim/uxd/rx%d.uxd" % i for i in range(ndst)] if uxd else [("127.0.0.1", 55101 + i) for i in range(ndst)]
+        scratch = None
         if bare:
             class BareTx(memoing.Memoer):
                 def send(s, gram, dst, *, echoic=False):
@@ -89,6 +95,10 @@ def run_case(tape, tier):
                         raise
             tx = BareTx(name="tx", code=code, curt=curt, size=size)
             tx.reopen()
+        elif uxd:
+            scratch = store.scratch()
+            tx = uxdmemoing.PeerMemoer(name="tx", temp=False, headDirPath=scratch, code=code, curt=curt, size=size)
+            assert tx.reopen()
         else:
             tx = peermemoing.PeerMemoer(name="tx", ha=("127.0.0.1", 55100), code=code, curt=curt, size=size)
             assert tx.reopen()
@@ -108,7 +118,7 @@ def run_case(tape, tier):
             before = len(tx.txgs)
             tx.serviceTxMemos()
             for g, d in list(tx.txgs)[before:]:
-                expected.append((tuple(d), bytes(g)))
+                expected.append((gr.key(d), bytes(g)))
 
         def service():
             mode = tape.draw("svc_mode", 3)
@@ -151,6 +161,8 @@ def run_case(tape, tier):
             res.steps += 1
         pending = (len(tx.txgs), len(tx.txbs[0]) if tx.txbs[1] is not None else 0)
         tx.close()
+        if scratch:
+            store.cleanup(scratch)
     # ---- oracle: replay the call log against the queue
     res.comparisons = len(calls)
     res.sim_time = float(len(calls))
@@ -201,6 +213,8 @@ def run_case(tape, tier):
         res.probes["two_destinations"] += 1
     if bare:
         res.probes["bare_memoer"] += 1
+    if uxd:
+        res.probes["uxd_peer"] += 1
     # remainder pending while the queue is empty: last gram partially accepted
     if calls and expected:
         last_start = None
@@ -211,8 +225,8 @@ def run_case(tape, tier):
             res.probes["remainder_left_when_queue_empty"] += 1
     res.faultfree = sum(res.faults.values()) == 0
     res.nontrivial = fresh_block and bool(res.faults.get("accept_partial")) and len(expected) >= 3
-    res.scenario = lambda: dict(bare=bare, code=code, curt=curt, size=size, rates=rates, grams=[(d[1], len(g)) for d, g in expected],
-                                calls=[(d[1], len(data), o, a) for d, data, o, a in calls][:120], raised=raised)
+    res.scenario = lambda: dict(bare=bare, uxd=uxd, code=code, curt=curt, size=size, rates=rates, grams=[(str(d), len(g)) for d, g in expected],
+                                calls=[(str(d), len(data), o, a) for d, data, o, a in calls][:120], raised=raised)
     res.scen_digest = digest(dict(g=[(d, g.decode("latin1")) for d, g in expected], c=[(d, len(data), o, a) for d, data, o, a in calls]))
     res.event_digest = res.scen_digest
     return res
